@@ -116,6 +116,9 @@ def gen_case(r, tier, long_blocks=0):
         else:
             for _ in range(r.range(1, 10)):
                 ops.append(stream_op(r, rsize(r, tier)))
+                if r.chance(1, 12):
+                    # other stream objects are created, used and freed while this one is alive and in mid-stream
+                    ops.append("decoy %d %s" % (rnonce(r), vlib.hx(r.bytes(r.choice([0, 3, 16, 17, 40])))))
         if r.chance(1, 8):
             ops.append(block_op(r))
     if r.chance(1, 2):
@@ -297,6 +300,8 @@ def classify(case, out):
             tags.append("inplace")
         if t[0] in ("stream", "buf") and ("after" in t[2:] or "before" in t[2:]):
             tags.append("%s:buffers-touch" % t[0])
+        if t[0] == "decoy":
+            tags.append("other-streams-come-and-go")
         if t[0] == "block" and "inplace" in t[2:]:
             tags.append("block:inplace")
         if t[0] in ("block", "stream", "buf"):
